@@ -13,7 +13,9 @@ def make(which):
         return lambda a, b: abs(len(a) - len(b))
     if which == 4:
         return lambda a, b: RL.distance(a, b, weights=(2, 2, 3))
+    if which == 6:
+        return lambda a, b: 100001 * RL.distance(a, b)
     return lambda a, b: 0 if a == b else (sum(map(ord, a)) + sum(map(ord, b))) % 7
 
 
-NAMES = ['lev', '3*lev', 'lev/2', '|len a - len b|', 'weighted lev (2,2,3)', 'code-sum mod 7 (unrelated to edit distance)']
+NAMES = ['lev', '3*lev', 'lev/2', '|len a - len b|', 'weighted lev (2,2,3)', 'code-sum mod 7 (unrelated to edit distance)', '100001*lev']
